@@ -29,6 +29,8 @@ theorem C10_roundtrip (base cwd p : Bytes) (hb : base ≠ []) (hcwd : isAbs .lin
 /-- the virtual current directory is always defined (no panic), whatever the base's current directory is -/
 theorem C10_getwd_total (base baseCwd : Bytes) : (getwd base baseCwd).isSome = true := by
   unfold getwd fromBasePath
-  split <;> simp_all
+  by_cases h : inBase base baseCwd = true
+  · simp [h, inBase_prefix h]
+  · simp [h]
 
 end Avfs.Wrap
